@@ -62,6 +62,10 @@ def snapshot_repo():
         if f.endswith(('.c', '.h')):
             files.add(f)
     files.add('config.h')
+    if not os.path.isdir(os.path.join(REPO, '.git')) and not os.path.isfile(os.path.join(REPO, '.git')):
+        for root, dirs, fs in os.walk(REPO):
+            for f in fs:
+                files.add(os.path.relpath(os.path.join(root, f), REPO))
     for f in files:
         src = os.path.join(REPO, f)
         if not os.path.isfile(src):
@@ -165,9 +169,24 @@ class CoqLock:
         self.f.close()
 
 
+def coq_project():
+    """_CoqProject is generated: every .v under coq/ except scratch/ and *_wip.v (call with the lock held)."""
+    vs = []
+    for root, dirs, fs in os.walk(COQ):
+        dirs[:] = sorted(d for d in dirs if d not in ('scratch',) and not d.startswith('.'))
+        for f in sorted(fs):
+            if f.endswith('.v') and not f.endswith('_wip.v'):
+                vs.append(os.path.relpath(os.path.join(root, f), COQ))
+    txt = '-Q . Snap\n-arg -w -arg -notation-overridden,-deprecated-hint-without-locality,-ambiguous-paths,-redundant-canonical-projection\n' + '\n'.join(vs) + '\n'
+    pp = os.path.join(COQ, '_CoqProject')
+    if not os.path.exists(pp) or open(pp).read() != txt:
+        open(pp, 'w').write(txt)
+
+
 def coq_make(targets, timeout=1500):
     """make -k the given .vo targets (full .vo builds).  Returns (ok, log)."""
     with CoqLock():
+        coq_project()
         if not os.path.exists(os.path.join(COQ, 'Makefile.coq')) or \
                 os.path.getmtime(os.path.join(COQ, 'Makefile.coq')) < os.path.getmtime(os.path.join(COQ, '_CoqProject')):
             run(['coq_makefile', '-f', '_CoqProject', '-o', 'Makefile.coq'], cwd=COQ)
@@ -325,21 +344,24 @@ def hexs(b):
 # ---------------------------------------------------------------------------------------
 # extracted model
 
-def build_model():
-    """(Re)extract and compile ocaml/snapmodel when the extraction output changed."""
-    oc = os.path.join(VERIF, 'ocaml')
-    ok, log = coq_make(['Extract/Extract.vo'])
+def build_model(extract_vo='Extract/Extract.vo', ocdir='ocaml', ext='snapext', driver='driver.ml', exe='snapmodel'):
+    """(Re)extract and compile an extracted model when the extraction output changed.
+    The Coq file coq/<extract_vo minus o> must contain  Extraction "../<ocdir>/<ext>.ml" ... ;
+    <ocdir>/<driver> is the hand-written OCaml glue (parsing/printing only)."""
+    oc = os.path.join(VERIF, ocdir)
+    os.makedirs(oc, exist_ok=True)
+    ok, log = coq_make([extract_vo])
     if not ok:
         raise BuildError('extraction failed:\n' + log[-2000:])
     with CoqLock():
-        ext = os.path.join(oc, 'snapext.ml')
-        exe = os.path.join(oc, 'snapmodel')
-        drv = os.path.join(oc, 'driver.ml')
-        if (not os.path.exists(exe)) or os.path.getmtime(exe) < max(os.path.getmtime(ext), os.path.getmtime(drv)):
-            r = run(['ocamlfind', 'ocamlopt', '-w', '-a', '-O2', 'snapext.mli', 'snapext.ml', 'driver.ml', '-o', 'snapmodel'], cwd=oc)
+        extp = os.path.join(oc, ext + '.ml')
+        exep = os.path.join(oc, exe)
+        drv = os.path.join(oc, driver)
+        if (not os.path.exists(exep)) or os.path.getmtime(exep) < max(os.path.getmtime(extp), os.path.getmtime(drv)):
+            r = run(['ocamlfind', 'ocamlopt', '-w', '-a', '-O2', ext + '.mli', ext + '.ml', driver, '-o', exe], cwd=oc)
             if r.returncode != 0:
                 raise BuildError('ocaml build failed:\n' + r.stdout[-2000:])
-    return os.path.join(oc, 'snapmodel')
+    return exep
 
 
 def run_lines(exe, lines, shards=None, env=None, timeout=1800):
